@@ -272,6 +272,12 @@ func genExecHistory(r *Rng, pf execProfile) (InstD, []ReqD) {
 			}
 			rq.Script = append(rq.Script, st)
 		}
+		if hedged(stack) {
+			// the last step is reused by every further attempt: cooperative attempts sharing one reaction lag would all
+			// return at the same instant after a cancellation
+			rq.Script[len(rq.Script)-1].Coop = nil
+			rq.Script[len(rq.Script)-1].Lag = 0
+		}
 		if strings.HasPrefix(rq.Entry, "Run") { // Run* discards the function's result: it is the zero value inside the library
 			for i := range rq.Script {
 				rq.Script[i].Out.R = 0
